@@ -41,6 +41,7 @@ type c08result struct {
 	problems []string // op: problem
 	accepts  []string // accessors that may return true
 	runs     int
+	isCat    map[int64]int // Message.Is(category constant): 1 true, 0 false, -1 undecided / differs between paths
 }
 
 // mkCellMsg builds the abstract message of a cell.
@@ -188,7 +189,7 @@ func checkC08(c *Ctx) {
 						results[ci].problems = append(results[ci].problems, fmt.Sprintf("checker panic: %v", r))
 					}
 				}()
-				results[ci] = runC08Cell(p, cells[ci], byName, getters)
+				results[ci] = runC08Cell(p, cells[ci], byName, getters, cat)
 			}(ci)
 		}
 		wg.Wait()
@@ -227,6 +228,7 @@ func checkC08(c *Ctx) {
 		}
 		accTypes := map[string]map[int64]bool{}
 		nProblems := 0
+		nIsBad := 0
 		okCells := 0
 		for _, r := range results {
 			totalCells++
@@ -252,6 +254,25 @@ func checkC08(c *Ctx) {
 					c.Bad("C08.4", "FF-cell "+r.cell.String(), "-", fmt.Sprintf("file message with leading FF is classified as wire category %s (type %d)", h[0], r.typ))
 				}
 			}
+			// the message-level membership test agrees with the type-level one for every category
+			for n, cv := range cat {
+				label := n
+				if n == "UnknownMsg" {
+					label = "unknown"
+				}
+				want := 0
+				for _, x := range h {
+					if x == label {
+						want = 1
+					}
+				}
+				if got, ok := r.isCat[cv]; ok && got != want {
+					nIsBad++
+					if nIsBad <= 10 {
+						c.Bad("C08.2", fmt.Sprintf("%s.Is(%s) in cell %s", tgt.label, n, r.cell), "-", fmt.Sprintf("Message.Is / IsOneOf(%s) gives %s for a message whose Type() is %d, for which Type.Is(%s) is %v: the message belongs to no category (or to two) depending on which of the two questions is asked", n, map[int]string{1: "true", 0: "false", -1: "no single answer"}[got], r.typ, n, want == 1))
+					}
+				}
+			}
 			for _, a := range r.accepts {
 				if accTypes[a] == nil {
 					accTypes[a] = map[int64]bool{}
@@ -261,6 +282,9 @@ func checkC08(c *Ctx) {
 			if len(r.problems) == 0 {
 				okCells++
 			}
+		}
+		if nIsBad == 0 {
+			c.OK("C08.2", tgt.label+" Is/IsOneOf agree with Type().Is", "-", fmt.Sprintf("%d cells x %d category constants", len(cells), len(cat)))
 		}
 		if nProblems == 0 {
 			c.OK("C08.1", tgt.label+" totality", "-", fmt.Sprintf("%d cells x %d operations: no reachable panic or unproven bound", len(cells), len(getters)+5))
@@ -322,8 +346,8 @@ func checkC08(c *Ctx) {
 	c.Extra["abstract_runs"] = totalRuns
 }
 
-func runC08Cell(p *Program, cell c08cell, byName map[string]*ssa.Function, getters []*ssa.Function) c08result {
-	res := c08result{cell: cell}
+func runC08Cell(p *Program, cell c08cell, byName map[string]*ssa.Function, getters []*ssa.Function, cat map[string]int64) c08result {
+	res := c08result{cell: cell, isCat: map[int64]int{}}
 	ex := NewExec(p)
 	ex.Unroll = 8
 	base := ex.NewState()
@@ -377,6 +401,50 @@ func runC08Cell(p *Program, cell c08cell, byName map[string]*ssa.Function, gette
 	}
 	if fn := byName["Is"]; fn != nil {
 		run("Is", fn, func(st *State) []Val { return []Val{mkSym(ex.syms.Get("checker", 8, true))} })
+	}
+	// Message.Is / IsOneOf for each category constant: must be decided and (checked by the caller) agree with Type().Is
+	for _, cv := range cat {
+		cv := cv
+		verdict := func(outs []Outcome) int {
+			r := -2
+			for _, o := range outs {
+				if o.Panic || len(o.Ret) == 0 {
+					continue
+				}
+				v := -1
+				if bv, ok := o.Ret[0].(*BoolV); ok {
+					if b, k := o.St.boolOf(bv); k {
+						v = 0
+						if b {
+							v = 1
+						}
+					}
+				}
+				if r == -2 {
+					r = v
+				} else if r != v {
+					r = -1
+				}
+			}
+			if r == -2 {
+				r = -1
+			}
+			return r
+		}
+		if fn := byName["Is"]; fn != nil {
+			res.isCat[cv] = verdict(run("Is", fn, func(st *State) []Val { return []Val{mkConst(cv, 8, true)} }))
+		}
+		if fn := byName["IsOneOf"]; fn != nil {
+			one := verdict(run("IsOneOf", fn, func(st *State) []Val {
+				es := []Val{mkConst(cv, 8, true)}
+				id := ex.newObj(st, &ArrayV{Elem: fn.Params[1].Type().Underlying().(*types.Slice).Elem(), Segs: []Seg{{Elems: es}}}, nil)
+				n := mkConst(1, 64, true)
+				return []Val{&SliceV{Obj: id, Off: mkConst(0, 64, true), Len: n, Cap: n}}
+			}))
+			if v, ok := res.isCat[cv]; ok && v != one {
+				res.isCat[cv] = -1
+			}
+		}
 	}
 	if fn := byName["IsOneOf"]; fn != nil {
 		run("IsOneOf", fn, func(st *State) []Val {
